@@ -73,6 +73,8 @@ class Timezone(datetime.tzinfo):
     def fromduration(cls, duration: 'Duration') -> 'Timezone':
         if duration.seconds % 60 != 0:
             raise ValueError("{!r} has not an integral number of minutes".format(duration))
+        elif abs(duration.seconds) > 14 * 3600:
+            raise ValueError("{!r} is out of the range of the timezone offsets".format(duration))
         return cls(datetime.timedelta(seconds=int(duration.seconds)))
 
     def __getinitargs__(self) -> tuple[datetime.timedelta]:
